@@ -1220,6 +1220,34 @@ where
     }
 }
 
+// Verification hooks (compiled only with `--cfg bma400_verif`)
+#[cfg(bma400_verif)]
+impl<T, InterfaceError, PinError> BMA400<T>
+where
+    T: ReadFromRegister<Error = BMA400Error<InterfaceError, PinError>>
+        + WriteToRegister<Error = BMA400Error<InterfaceError, PinError>>,
+{
+    /// Calls `f(address, byte)` for every register of the driver's shadow configuration
+    pub fn verif_shadow(&mut self, f: &mut dyn FnMut(u8, u8)) {
+        self.config.verif_visit(&mut |addr, byte| {
+            f(addr, byte);
+            None
+        });
+    }
+    /// Overwrites the shadow byte of the register at `addr` (no bus traffic)
+    pub fn verif_load(&mut self, addr: u8, byte: u8) {
+        self.config.verif_visit(&mut |a, _| if a == addr { Some(byte) } else { None });
+    }
+    /// `write_register` of the underlying interface with a run-time address / value
+    pub fn verif_raw_write(&mut self, addr: u8, val: u8) -> Result<(), BMA400Error<InterfaceError, PinError>> {
+        self.interface.write_register(registers::VerifReg { addr, val })
+    }
+    /// `read_register` of the underlying interface with a run-time address
+    pub fn verif_raw_read(&mut self, addr: u8, buffer: &mut [u8]) -> Result<(), BMA400Error<InterfaceError, PinError>> {
+        self.interface.read_register(registers::VerifReg { addr, val: 0 }, buffer)
+    }
+}
+
 #[cfg(test)]
 mod tests {
     use super::*;
